@@ -20,7 +20,10 @@ for name in sorted(idx):
         "confirmed": "bin/seed-intake: fresh scratch worktree of /repo HEAD; clean tree: demo passes; patch applied: go build ok, go test -vet=off -count=1 ./... passes, demo fails",
         "checks_run": ["bin/mutrun seeded/%s/patch.diff %s quick" % (name, c.split()[0]) for c in e["caught_by"]],
         "caught_by": e["caught_by"],
+        "round": e.get("round", 1),
     }
+    if e.get("initially_missed"):
+        meta["initially_missed_because"] = e["initially_missed"]
     json.dump(meta, open(os.path.join(d, "meta.json"), "w"), indent=1)
     rows.append("| %s | %s | %s | %s | %s |" % (name, e["property"], e["change"].replace("|", "\\|"), e["needs"].replace("|", "\\|"), "; ".join(e["caught_by"]).replace("|", "\\|")))
 with open(os.path.join(V, "seeded", "README.md"), "w") as f:
